@@ -1348,12 +1348,15 @@ class ProcessPoolExecutor(Executor):
                 executor_manager_thread.join()
                 _threads_wakeups.pop(executor_manager_thread, None)
 
-        # To reduce the risk of opening too many files, remove references to
-        # objects that use file descriptors.
-        self._executor_manager_thread = None
-        self._executor_manager_thread_wakeup = None
-        self._call_queue = None
-        self._result_queue = None
-        self._processes_management_lock = None
+        if executor_manager_thread is None or wait:
+            # To reduce the risk of opening too many files, remove references
+            # to objects that use file descriptors. With wait=False, the
+            # executor manager thread is still running and might need them to
+            # re-spawn a worker that timed out while some jobs are pending.
+            self._executor_manager_thread = None
+            self._executor_manager_thread_wakeup = None
+            self._call_queue = None
+            self._result_queue = None
+            self._processes_management_lock = None
 
     shutdown.__doc__ = Executor.shutdown.__doc__
